@@ -42,7 +42,7 @@ META = {
 # programs on which the as-built configuration of the spec must violate an invariant (base class in another package)
 ASBUILT_WITNESSES = [
     {"depth": 2, "fan": 1, "same": False, "wrap": 3, "nest": "lib", "split": ["none", "one"], "xtype": "Real", "xdims": 0,
-     "xpre": "", "ypre": "", "ieq": False, "attr": "", "mods": [], "clash": False, "shadow": False},
+     "xpre": "", "ypre": "", "ieq": False, "attr": "", "mods": [], "clash": False, "shadow": False, "skew": False},
 ]
 
 
@@ -97,7 +97,7 @@ def draw_pvs(rng, n):
                     "split": split, "xtype": rng.choice(["Real", "Integer", "Boolean", "aR", "aI", "aB", "aaR"]),
                     "xdims": rng.choice([0, 0, 1, 2]), "xpre": rng.choice(pre), "ypre": rng.choice(pre),
                     "ieq": rng.random() < 0.5, "attr": "", "mods": [],
-                    "clash": rng.random() < 0.3, "shadow": rng.random() < 0.3})
+                    "clash": rng.random() < 0.3, "shadow": rng.random() < 0.3, "skew": rng.random() < 0.25})
     return out
 
 
@@ -120,7 +120,7 @@ def run(ctx):
     # vacuity: every dimension of the family must have been exercised
     need = ["depth1", "depth2", "depth3", "fan2", "same", "wrap0", "wrap1", "wrap2", "wrap3", "nest-user", "nest-userbase",
             "xtype-aR", "xtype-aI", "xtype-aB", "xtype-aaR", "xtype-Integer", "xtype-Boolean", "xdims1", "xdims2",
-            "xpre-input", "xpre-output", "xpre-parameter", "xpre-flow", "ypre-input", "ypre-output", "ieq", "clash", "shadow"] + \
+            "xpre-input", "xpre-output", "xpre-parameter", "xpre-flow", "ypre-input", "ypre-output", "ieq", "clash", "shadow", "skew"] + \
            ["split%d-%s" % (i, m) for i in (1, 2, 3) for m in ("one", "late", "chain", "multi")]
     if thorough:
         need += ["depth4", "xpre-constant", "xpre-discrete"]
